@@ -190,6 +190,20 @@ func TestC20(t *testing.T) {
 					cl.label("add-after-query")
 				}
 			},
+			"selfmerge": func(t *rapid.T) {
+				// "merging datasets equals adding all values to one" also when the argument is the receiver itself (small
+				// sizes only: the dataset doubles)
+				if len(vals) == 0 || len(vals) > 64 {
+					t.Skip("empty or too large")
+				}
+				cl.logf("Merge(self)")
+				d.Merge(d)
+				vals = append(vals, vals...)
+				cl.label("merge:self")
+				if queried {
+					addAfterQuery = true
+				}
+			},
 			"twin": func(t *rapid.T) {
 				// the same multiset in another order answers identically
 				tw := dataset.NewDataset()
